@@ -584,7 +584,7 @@ async fn sys_init(
         soft_blocks: soft_receiver,
         shutdown,
         state,
-        blocks_pending_finalization: std::collections::HashMap::new(),
+        blocks_pending_finalization: Default::default(),
         metrics,
         reader_tasks: JoinMap::new(),
         reader_cancellation_token: CancellationToken::new(),
